@@ -656,7 +656,7 @@ func (g qualGen) table(r *rng, L int, maxF int, reg *registry) gts.FeatureSlice 
 func genReference(r *rng, i int) seqio.Reference {
 	ref := seqio.Reference{Number: i + 1}
 	if r.intn(6) == 0 {
-		ref.Number = r.pick2([]int{0, 9, 10, 99, 100, 999, -9, -99})
+		ref.Number = r.pick2([]int{0, 9, 10, 99, 100, 999, 1000, 12345, -9, -99, -100})
 	}
 	if r.intn(4) != 0 {
 		ref.Info = r.pick([]string{"(bases 1 to 10)", "(bases 1 to 5386; 20 to 30)", "(sites)", " x", "(residues 1 to 3)"})
@@ -975,7 +975,7 @@ func inDomain(gb seqio.GenBank) bool {
 		return false
 	}
 	for _, ref := range f.References {
-		if ref.Number < -99 || ref.Number > 999 || !noLF(ref.Info) {
+		if !noLF(ref.Info) {
 			return false
 		}
 		for _, s := range []string{ref.Authors, ref.Group, ref.Title, ref.Journal, ref.Comment} {
@@ -1350,6 +1350,9 @@ func propC01(r *Run) {
 		"LOCUS       X                          4 bp    DNA     linear   UNA 29-FEB-2020\nSOURCE\nORGANISM   Homo\n//\n",
 		"LOCUS       X                          4 bp    DNA     linear   UNA 29-FEB-2020\nSOURCE      x\n//\n",
 		"LOCUS       X                          4 bp    DNA     linear   UNA 29-FEB-2020\nREFERENCE   1000\n//\n",
+		"LOCUS       X                          4 bp    DNA     linear   UNA 29-FEB-2020\nREFERENCE   1000(bases 1 to 4)\n  AUTHORS   x\n//\n",
+		"LOCUS       X                         -4 bp    DNA     linear   UNA 29-FEB-2020\nORIGIN      \n//\n",
+		"LOCUS       X                         -1 bp    DNA     linear   UNA 29-FEB-2020\nORIGIN      \n        1 acgt\n//\n",
 		"LOCUS       X                          4 bp    DNA     linear   UNA 29-FEB-2020\nREFERENCE   1  (bases 1 to 4)\nAUTHORS   x\n//\n",
 		"LOCUS       X                          4 bp    DNA     linear   UNA 29-FEB-2020\nCOMMENTS    x\n//\n",
 		"LOCUS X 4 bp DNA linear UNA 29-FEB-2020\nDEFINITION x.\n//\n",
